@@ -80,7 +80,8 @@ int vnacal_new_set_m_error(vnacal_new_t *vnp,
 	return -1;
     }
     for (int i = 0; i < frequencies; ++i) {
-	if (sigma_nf_vector[i] <= 0) {
+	if (isnan(sigma_nf_vector[i]) || isinf(sigma_nf_vector[i]) ||
+		sigma_nf_vector[i] <= 0) {
 	    _vnacal_error(vcp, VNAERR_USAGE,
 		    "vnacal_new_set_m_error: noise error "
 		    "values must be positive");
@@ -89,7 +90,8 @@ int vnacal_new_set_m_error(vnacal_new_t *vnp,
     }
     if (sigma_tr_vector != NULL) {
 	for (int i = 0; i < frequencies; ++i) {
-	    if (sigma_tr_vector[i] < 0) {
+	    if (isnan(sigma_tr_vector[i]) || isinf(sigma_tr_vector[i]) ||
+		    sigma_tr_vector[i] < 0) {
 		_vnacal_error(vcp, VNAERR_USAGE,
 			"vnacal_new_set_m_error: gain error "
 			"values must be non-negative");
@@ -106,6 +108,15 @@ int vnacal_new_set_m_error(vnacal_new_t *vnp,
 	double fmin, fmax;
 	double lower, upper;
 
+	for (int i = 0; i < frequencies; ++i) {
+	    if (isnan(frequency_vector[i]) || isinf(frequency_vector[i]) ||
+		    frequency_vector[i] < 0.0) {
+		_vnacal_error(vcp, VNAERR_USAGE,
+			"vnacal_new_set_m_error: invalid frequency: %f",
+			frequency_vector[i]);
+		return -1;
+	    }
+	}
 	for (int i = 1; i < frequencies; ++i) {
 	    if (frequency_vector[i - 1] >= frequency_vector[i]) {
 		_vnacal_error(vcp, VNAERR_USAGE,
